@@ -80,7 +80,7 @@ var runners = map[string]core.Runner{
 }
 
 func main() {
-	c08.Sub = []core.Runner{c08dns.Runner, c08ndp.Runner, c03dhcp.Runner, c08dhcp.Runner}
+	c08.Sub = []core.Runner{c08dns.Runner, c08ndp.Runner, c03dhcp.Runner, c08dhcp.Runner, c13.FrameRunner, c14.FrameRunner}
 	prop := flag.String("prop", "", "property id")
 	seed := flag.Int64("seed", 1, "PRNG seed")
 	tier := flag.String("tier", "quick", "quick|thorough")
